@@ -77,11 +77,16 @@ func c20Case(c *ctx, fs []sfieldSpec, byValue bool, how string) {
 	if byValue {
 		arg = ptr.Elem().Interface()
 	}
-	checkErr := jsonapi.Check(ptr.Elem().Interface())
 	fail := func(k, d string) {
 		if key == "" {
 			key, detail = k, d
 		}
+	}
+	var checkErr error
+	if p, pv := guard(func() { checkErr = jsonapi.Check(ptr.Elem().Interface()) }); p {
+		// Check answers with an error, it does not panic; what follows treats the struct as rejected
+		fail("check-panics", fmt.Sprint(pv))
+		checkErr = fmt.Errorf("Check panicked: %v", pv)
 	}
 	// BuildType
 	var typ jsonapi.Type
